@@ -484,8 +484,10 @@ func ParallelizedAccumulation(input ParallelizedAccumulationInput) (output Paral
 			return output, err
 		}
 	}
-	// Process results from each service accumulation
-	for service_id := range s {
+	// Process results from each service accumulation, in ascending service order: u, t′ and p are
+	// sequences ([... | s <− s] in (12.17)), so their order must not depend on map iteration order
+	sortedServices := slices.Sorted(maps.Keys(s))
+	for _, service_id := range sortedServices {
 		singleOutput, ok := cache[service_id]
 		if !ok {
 			singleOutput, err = runSingleReplaceService(service_id, singleInput)
@@ -781,7 +783,8 @@ func SingleServiceAccumulation(input SingleServiceAccumulationInput) (output Sin
 		}
 	}
 
-	sort.Slice(iT, func(i, j int) bool {
+	// stable: transfers of one sender keep their order of emission
+	sort.SliceStable(iT, func(i, j int) bool {
 		return iT[i].SenderID < iT[j].SenderID
 	})
 
